@@ -124,7 +124,24 @@ let proto_cmd s =
     | [p; prio; _; name] -> ((n_of_hex p, n_of_hex prio), bytes_of_hex name) | _ -> failwith "item") items in
   match protocol_hash_of items with Ok h -> hex_of_n h | Err -> "ERR" | Panic -> "PANIC"
 
+let vis_cmd wl ops =
+  let v = ref (vis_new (wl = "1")) in
+  let out = ref [] in
+  List.iter (fun op -> match String.split_on_char ':' op with
+    | ["s"; e; b] -> v := set_visibility !v (n_of_hex e) (b = "1")
+    | ["d"; e] -> v := remove_despawned !v (n_of_hex e)
+    | ["l"] -> let (v', lost) = drain_lost !v in v := v';
+        let lost = List.sort compare (List.map int_of_n lost) in
+        out := Printf.sprintf "l[%s]" (String.concat " " (List.map (Printf.sprintf "%x") lost)) :: !out
+    | ["u"] -> v := update !v
+    | ["q"; e] -> out := hex_of_n (vstate_code (state !v (n_of_hex e))) :: !out
+    | ["v"; e] -> out := b01 (is_visible !v (n_of_hex e)) :: !out
+    | _ -> out := "?" :: !out) (split_ops ops);
+  String.concat "," (List.rev !out)
+
 let handle cmd args = match cmd, args with
+  | "vis", [wl] -> vis_cmd wl ""
+  | "vis", [wl; ops] -> vis_cmd wl ops
   | "cond", [s] -> cond_cmd s
   | "tcp", [s] -> tcp_cmd s
   | "proto", [] -> proto_cmd ""
